@@ -1,5 +1,5 @@
 INIT InitM
 NEXT NextM
-CONSTANTS Dump = FALSE Size = "quick"
+CONSTANTS Dump = FALSE Lite = FALSE Size = "quick"
 INVARIANTS ToksAreEnc DecTotal DumpM
 CHECK_DEADLOCK FALSE
